@@ -197,6 +197,9 @@ pub fn replay(path: &str) -> i32 {
     let s = std::fs::read_to_string(path).expect("MACHINERY: cannot read replay file");
     let v: Value = serde_json::from_str(&s).expect("MACHINERY: replay JSON");
     let r = if v.get("replay").is_some() { &v["replay"] } else { &v };
+    if r["check"].as_str() == Some("C02x") {
+        return c01::replay_as(path, "C02");
+    }
     let alter = match r["alter"].as_str().unwrap_or("None") {
         "Some(DestAddr)" => Some(Alter::DestAddr),
         "Some(FixedPort)" => Some(Alter::FixedPort),
@@ -314,6 +317,43 @@ pub fn run(args: &Args) -> i32 {
     let (probes, completed, neg, flow_port, seqs, samples) = totals.into_inner().unwrap();
     let min_cov = seqs.values().map(std::collections::BTreeSet::len).min().unwrap_or(0);
     let full_cov = seqs.values().filter(|s| s.len() >= 65023).count();
+    // TCP connection attempts that expire while younger attempts complete: the SYN-ACK / RST of the
+    // younger attempt must still be attributed to the probe that elicited it (ground-truth judge of C01)
+    let xtasks = c01::tcp_expiry_tasks(if tier == Tier::Thorough { 3 } else { 2 });
+    let xagg = Mutex::new((mc::ExploreStats::default(), 0u64));
+    mc::par_for(xtasks.len(), mc::workers(), |ti| {
+        let t = &xtasks[ti];
+        let mut local: BTreeMap<String, Finding> = BTreeMap::new();
+        let mut answers = 0u64;
+        let stats = mc::explore(t.bound, 400, &mut |ch| {
+            let c = std::mem::replace(ch, Chooser::new(&[], 0));
+            let o = c01::run_once(t, c);
+            *ch = o.world.chooser.clone();
+            answers += o.world.deliveries.iter().filter(|d| d.genuine).count() as u64;
+            for (k, detail) in c01::judge(t, &o) {
+                let key = format!("tcp-expiry:{k}");
+                let e = local.entry(key.clone()).or_insert(Finding { key, detail: format!("[{} {} tcp_connect_timeout={:?} choices={:?}] {detail}", t.cell.name(), t.topo, t.params.tcp_connect_timeout, ch.choices), replay: c01::replay_json("C02x", t, &ch.choices), weight: (ch.deviations(), ch.choices.len()), count: 0 });
+                e.count += 1;
+            }
+            local.len() < 20
+        });
+        let mut a = xagg.lock().unwrap();
+        a.0.merge(&stats);
+        a.1 += answers;
+        drop(a);
+        let mut f = findings.lock().unwrap();
+        for (k, v) in local {
+            match f.get_mut(&k) {
+                Some(old) => old.count += v.count,
+                None => {
+                    f.insert(k, v);
+                }
+            }
+        }
+    });
+    let (xstats, xanswers) = xagg.into_inner().unwrap();
+    rep.set("tcp_expiry_executions", json!(xstats.executions));
+    rep.set("tcp_expiry_answers_checked", json!(xanswers));
     rep.merge_findings(findings.into_inner().unwrap());
     rep.set("evaluations", json!(probes));
     rep.set("distinct_nontrivial", json!(completed + neg));
@@ -324,7 +364,7 @@ pub fn run(args: &Args) -> i32 {
     rep.set("min_distinct_sequences_per_cell", json!(min_cov));
     rep.set("cells_with_full_sequence_range", json!(full_cov));
     rep.observe("quotations_with_altered_flow_port_accepted", json!(flow_port));
-    rep.set("rule", json!(format!("56 cells; the real strategy (first_ttl 1, max_ttl 254, max_inflight 255, initial_sequence 0) runs until the allocator wraps, so every sequence it can issue (0..=65276, Dublin/IPv6: 0..=765) is emitted by real dispatch code and answered at once by a hop with quotation shape (ttl-1+offset) mod {NSHAPES} ({{hdr+8,+28,+64,full,unreachable,ttl 0,cksum 0,tos,outer IHL 6/15,RFC4884 compliant/legacy,combo}}); quick: one shape offset per cell, thorough: all {NSHAPES} offsets = full product sequence x shape; + boundary initial sequences, 1024-octet probes (truncated quotations), target-originated answers one probe per round (Echo Reply / port unreachable / SYN-ACK). Oracle: ground-truth check of every published slot (C01's). Negative half: every response altered in one identity field (destination, pinned port, protocol, Dublin magic, ICMP identifier): no slot may complete. distinct_nontrivial = recognised answers + altered quotations")));
+    rep.set("rule", json!(format!("56 cells; the real strategy (first_ttl 1, max_ttl 254, max_inflight 255, initial_sequence 0) runs until the allocator wraps, so every sequence it can issue (0..=65276, Dublin/IPv6: 0..=765) is emitted by real dispatch code and answered at once by a hop with quotation shape (ttl-1+offset) mod {NSHAPES} ({{hdr+8,+28,+64,full,unreachable,ttl 0,cksum 0,tos,outer IHL 6/15,RFC4884 compliant/legacy,combo}}); quick: one shape offset per cell, thorough: all {NSHAPES} offsets = full product sequence x shape; + boundary initial sequences, 1024-octet probes (truncated quotations), target-originated answers one probe per round (Echo Reply / port unreachable / SYN-ACK). Oracle: ground-truth check of every published slot (C01's). Negative half: every response altered in one identity field (destination, pinned port, protocol, Dublin magic, ICMP identifier): no slot may complete. + tcp cells x {{L2,L3,silent-mid,dup}} x connect timeout {{5,15,25,35}} ms, all executions with <= 2 (3 thorough) deviations (attempts expiring while younger ones complete). distinct_nontrivial = recognised answers + altered quotations")));
     for s in samples {
         rep.sample(s);
     }
